@@ -226,7 +226,10 @@ def local_defs(fn, name):
     return out
 
 
-def extract(repo):
+def analyse(repo):
+    """(tree, functions by name, reads, per function {"ok": [(identifier, [Lean condition]...)], "opaque": [...],
+    "py": [(identifier, [(test node, negated)])] - the same compiled sites as Python AST, for the harness}, loops,
+    function order)"""
     path = os.path.join(repo, REL)
     tree = ast.parse(open(path, encoding="utf-8").read())
     fns = {f.name: f for f in tree.body if isinstance(f, ast.FunctionDef)}
@@ -236,9 +239,10 @@ def extract(repo):
     order = []
     for fn, ident, guards in sites(tree):
         if fn not in per_fn:
-            per_fn[fn] = {"ok": [], "opaque": []}
+            per_fn[fn] = {"ok": [], "opaque": [], "py": []}
             order.append(fn)
         conds = []
+        pyconds = []
         ok = True
         heads = []
         saved = list(comp.reads)
@@ -255,13 +259,20 @@ def extract(repo):
                 ok = False
                 break
             conds.append("(.not %s)" % c if g[2] else c)
+            pyconds.append((g[1], g[2]))
         if ok:
             per_fn[fn]["ok"].append((ident, conds))
+            per_fn[fn]["py"].append((ident, pyconds))
             if heads:
                 loops.append((fn, ident, heads))
         else:
             comp.reads = saved          # reads of an abandoned site do not count
             per_fn[fn]["opaque"].append(ident)
+    return tree, fns, comp, per_fn, loops, order
+
+
+def extract(repo):
+    tree, fns, comp, per_fn, loops, order = analyse(repo)
     if not comp.reads:
         raise ExtractError("validator.py: no condition could be compiled")
     ctors = [read_ctor(p) for p in comp.reads]
@@ -306,6 +317,8 @@ def extract(repo):
     for p, c in zip(comp.reads, ctors):
         L.append("  | .%s => %s" % (c, lean_str(p)))
     L.append("")
+    L.append("def Read.all : List Read := [%s]" % ", ".join("." + c for c in ctors))
+    L.append("")
     for fn in order:
         L.append("/-- `%s`: the sites whose enclosing conditions compile, in source order -/" % fn)
         L.append("def guards_%s : List (MsgId × List (Expr Read)) := [" % fn)
@@ -314,6 +327,10 @@ def extract(repo):
         L.append("/-- `%s`: sites with a condition outside the compiled fragment -/" % fn)
         L.append("def opaque_%s : List MsgId := [%s]" % (fn, ", ".join("." + i for i in per_fn[fn]["opaque"])))
         L.append("")
+    L.append("/-- the compiled sites by function name (for the model driver) -/")
+    L.append("def guardTable : List (String × List (MsgId × List (Expr Read))) := [%s]"
+             % ", ".join("(%s, guards_%s)" % (lean_str(fn), fn) for fn in order))
+    L.append("")
     L.append("/-- the `for` headers a compiled site sits under (their targets are reads) -/")
     L.append("def siteLoops : List (String × MsgId × List String) := [")
     L.append(",\n".join("  (%s, .%s, [%s])" % (lean_str(fn), ident, ", ".join(lean_str(h) for h in heads))
